@@ -4,6 +4,7 @@ package main
 
 import (
 	"errors"
+	"github.com/Jeffail/gabs/v2"
 
 	"github.com/vishvananda/netlink"
 	"k8s.io/component-base/featuregate"
@@ -78,4 +79,71 @@ func ZZ_C20_recorded_capabilities() {
 	default:
 		zz.Assert(err == nil && allow == require, "a fresh node follows the request")
 	}
+}
+
+// C20 (the recorded capabilities describe the chain that was generated): what
+// the next run - and the policy container - read back.  For a generated list
+// of up to three plugins in any order (terway first or not, the eBPF chainer
+// anywhere in the list, other plugins before or after it): the record says
+// "has chainer" exactly when the list contains the chainer, and names the
+// datapath / policy provider of the terway entry; an unreadable capability
+// file or a failing bpffs mount is an error and nothing is saved.
+// zz:noreplay the capability file and the bpffs mount are replaced through engine-side overrides
+func ZZ_C20_store_runtime_config() {
+	kinds := []string{pluginTypeTerway, pluginTypeCilium, "portmap"}
+	n := zz.Fork("plugins", 3) + 1
+	doc := gabs.New()
+	_, _ = doc.Array("plugins")
+	hasChainer := false
+	terwayDP := ""
+	for i := 0; i < n; i++ {
+		k := kinds[zz.Fork("plugin"+string(rune('0'+i))+".type", 3)]
+		p := gabs.New()
+		_, _ = p.Set(k, "type")
+		if k == pluginTypeCilium {
+			hasChainer = true
+		}
+		if k == pluginTypeTerway && terwayDP == "" {
+			terwayDP = zz.OneOf("terway.datapath", "veth", "ipvlan", "datapathv2")
+			_, _ = p.Set(terwayDP, "eniip_virtual_type")
+		}
+		_ = doc.ArrayAppend(p.Data(), "plugins")
+	}
+	loadFails := zz.Bool("capability.file.unreadable")
+	mountFails := zz.Bool("bpffs.mount.fails")
+	saved := map[string]string{}
+	var store *nodecap.FileNodeCapabilities
+	didSave := false
+	zz.Override("(*github.com/AliyunContainerService/terway/pkg/utils/nodecap.FileNodeCapabilities).Load", func(s *nodecap.FileNodeCapabilities) error {
+		store = s
+		if loadFails {
+			return errZZLink
+		}
+		return nil
+	})
+	zz.Override("(*github.com/AliyunContainerService/terway/pkg/utils/nodecap.FileNodeCapabilities).Save", func(s *nodecap.FileNodeCapabilities) error {
+		didSave = true
+		for _, k := range []string{nodecap.NodeCapabilityHasCiliumChainer, nodecap.NodeCapabilityDataPath} {
+			saved[k] = s.Get(k)
+		}
+		return nil
+	})
+	mounts := 0
+	zz.Override("github.com/AliyunContainerService/terway/cmd/terway-cli.mountHostBpf", func() error {
+		mounts++
+		if mountFails {
+			return errZZLink
+		}
+		return nil
+	})
+	err := storeRuntimeConfig("/var/run/eni/node_capabilities", doc)
+	_ = store
+	if loadFails || (hasChainer && mountFails) {
+		zz.Assert(err != nil && !didSave, "a failure is reported and nothing is recorded")
+		return
+	}
+	zz.Assert(err == nil && didSave, "the record is saved")
+	zz.Assert((saved[nodecap.NodeCapabilityHasCiliumChainer] == True) == hasChainer && (saved[nodecap.NodeCapabilityHasCiliumChainer] == False) == !hasChainer, "the record says 'has chainer' exactly when the generated list contains the eBPF chainer, wherever it sits in the list")
+	zz.Assert(zz.Implies(terwayDP != "", saved[nodecap.NodeCapabilityDataPath] == terwayDP), "the recorded datapath is the terway entry's virtual type")
+	zz.Assert(zz.Implies(hasChainer, mounts >= 1) && zz.Implies(!hasChainer, mounts == 0), "the bpf file system is mounted exactly when the chainer is in the list")
 }
